@@ -2,7 +2,8 @@
    repair flags and SBOM suffix table read from the source by the translator. *)
 From LV Require Import Base FS FSFacts LayerShared.
 From LV.Checks Require Import C11Hold.
-From LVGen Require GenLayerShared.
+From LV Require Import ImpPrims ImpTypes.
+From LVGen Require GenLayerShared GenLayerSharedImp.
 
 Definition model (c : case) : fs * result errno unit :=
   match c_op c with
@@ -22,5 +23,13 @@ Definition res_agrees (o : c11_res) (m : result errno unit) : bool :=
   | _, _ => false
   end.
 
+(* delete_layer as regenerated statement by statement from shared.rs (GenLayerSharedImp) *)
+Definition model_regenerated (c : case) : fs * result errno unit :=
+  match c_op c with
+  | OpDeleteLayer => GenLayerSharedImp.gen_delete_layer (c_layers c) (c_name c) (c_pre c)
+  | OpRdr => model c
+  end.
+
 Definition agrees (c : case) : bool :=
-  let '(s', r) := model c in res_agrees (c_res c) r && fs_eqb s' (c_post c).
+  (let '(s', r) := model c in res_agrees (c_res c) r && fs_eqb s' (c_post c)) &&
+  (let '(s', r) := model_regenerated c in res_agrees (c_res c) r && fs_eqb s' (c_post c)).
